@@ -367,9 +367,42 @@ def args_from_model(entry, model):
     return args
 
 
+def replay_bounded(rp):
+    """a failure of a bounded stand-in: regenerate the same draw (seed, draw number) and evaluate
+    that one input on the real code"""
+    fl = rp["failure"]
+    e = find_entry(rp["module"], rp["name"])
+    rng = random.Random(fl["seed"])
+    gen = e.get("options", {}).get("gen")
+    types = e["types"]
+    if e["kind"] == "contract":
+        names = [p for p in _params(resolve(e["target"])) if p in types]
+    else:
+        names = _params(e["fn"])
+    args = None
+    for _ in range(fl["draw"]):
+        try:
+            args = gen(rng) if gen is not None else {p: gen_value(rng, types[p]) for p in names}
+        except LookupError:
+            raise
+        except Exception:  # noqa: BLE001  as in bounded(): an invalid draw is skipped
+            args = None
+    if args is None:
+        print("NO-INPUT: the draw could not be regenerated")
+        return 2
+    if e["kind"] == "contract":
+        status, bad, detail = native_check(e, args)
+    else:
+        status, bad, detail = native_lemma(e, args)
+    print(json.dumps(dict(status=status, violated=bad, detail=detail, args={k: _short(v) for k, v in args.items()})))
+    return 1 if status == "violated" else 0
+
+
 def replay(path):
     with open(path) as f:
         rp = json.load(f)
+    if rp.get("bounded"):
+        return replay_bounded(rp)
     e = find_entry(rp["contract_module"], rp["contract_name"])
     if rp.get("model") is None:
         print("NO-MODEL: the verifier gave no counter-model for", rp["obligation"])
